@@ -26,6 +26,7 @@ import (
 	"encoding/binary"
 	"encoding/json"
 	"fmt"
+	"go/token"
 	"math/rand"
 	"sort"
 	"strconv"
@@ -463,6 +464,10 @@ func (c *mlCtx) names(r *mlRow) {
 		default:
 			used := map[string]bool{}
 			for i := range have {
+				if !token.IsIdentifier(have[i].Go) || !token.IsExported(have[i].Go) {
+					what, text = "not-an-exported-identifier", fmt.Sprintf("%q is handed to the generators: %v", have[i].Go, have)
+					break
+				}
 				if used[have[i].Go] {
 					what, text = "names-not-distinct", fmt.Sprintf("%s is handed out twice: %v", have[i].Go, have)
 					break
